@@ -7,12 +7,17 @@
 //   -DHISTORY=1          after the first run: move desired positions (symbolic) and re-solve
 //   -DHISTORY=2          after the first run: addConstraint (symbolic) on the live solver and re-solve
 //   -DKKT                check optimality certificate (C02), -DPERMUTE  check order independence (C02/C20)
+//   -DAVOID_COPY         use Avoid::IncSolver from libavoid/vpsc.cpp instead of libvpsc
 //   -DNONINT             desired positions are arbitrary doubles (inexact arithmetic) instead of integers
 #include "verif.h"
+#ifdef AVOID_COPY
+#include "libavoid/vpsc.h"          // libavoid's private copy of the incremental solver (used by nudging)
+#else
 #include "libvpsc/variable.h"
 #include "libvpsc/constraint.h"
 #include "libvpsc/solve_VPSC.h"
 #include "libvpsc/exceptions.h"
+#endif
 #ifndef NV
 #define NV 3
 #endif
@@ -29,7 +34,13 @@
 #define HISTORY 0
 #endif
 #define MAXC (NC + 1)
+#ifdef AVOID_COPY
+using namespace Avoid;
+typedef IncSolver SolverBase;
+#else
 using namespace vpsc;
+typedef Solver SolverBase;
+#endif
 
 #ifdef WEIGHTS
 static const double WS[] = {WEIGHTS};
@@ -161,7 +172,7 @@ static void check_kkt(const Prob &P, Constraints &cs, Variables &vs) {
 #endif
 
 struct Inst {
-    Variables vs; Constraints cs; Solver *s; IncSolver *inc;
+    Variables vs; Constraints cs; SolverBase *s; IncSolver *inc;
     Inst() : s(0), inc(0) {}
     void build(const Prob &P, bool reversed) {
         for (int i = 0; i < P.n; i++) { int k = reversed ? P.n - 1 - i : i; vs.push_back(new Variable(i, P.d[k], P.w[k], P.sc[k])); }
@@ -173,7 +184,7 @@ struct Inst {
 #if MODE <= 1
         inc = new IncSolver(vs, cs); s = inc;
 #else
-        s = new Solver(vs, cs);
+        s = new SolverBase(vs, cs);
 #endif
     }
     bool run() {
